@@ -25,6 +25,11 @@ def _obs_cfg(path, maxn, maxe, nobjs, eobjs, idxs, maxobs, depth):
                     depth, "CONSTRAINT Bound\n" if depth > 0 else "", G_INV, O_INV, O_PROP))
 
 
+def _merge_untaken(untaken):
+    """Copy/Drop cannot happen with MaxObs=1; they are covered by the two-observer configuration."""
+    return [u for u in untaken if not (u.startswith("Observer/obs1") and u.rsplit(":", 1)[1] in ("Copy", "Drop"))]
+
+
 def _sig(rj):
     ev = rj.event or {}
     return {"action": ev.get("e"), "outcome": ev.get("r", ""), "observer": ev.get("k", ""),
@@ -91,17 +96,24 @@ def run(tier, seed):
     quick = tier == "quick"
     wd = vc.workdir("c14")
     # 1. design models: every history inside the bounds
+    #    (VERIF_C14_MODELS=0 skips them: they do not depend on the C++ tree, which is all a
+    #     source-mutant self-test varies)
+    models = os.environ.get("VERIF_C14_MODELS", "1") != "0"
     cfg = os.path.join(wd, "graph.cfg")
     gn, ge = (3, 4) if quick else (4, 4)
     _graph_cfg(cfg, gn, ge)
-    r = vc.model_check(SPEC, "Graph", cfg, coverage=True, timeout=3000, heap="12g")
-    ck.add_model("Graph", r, "MaxN=%d MaxE=%d" % (gn, ge))
-    if r.invariant:
-        ck.violation("design model Graph violates %s" % r.invariant, [r.out[-6000:]], tag="model")
+    if models:
+        r = vc.model_check(SPEC, "Graph", cfg, coverage=True, timeout=3000, heap="12g")
+        ck.add_model("Graph", r, "MaxN=%d MaxE=%d" % (gn, ge))
+        if r.invariant:
+            ck.violation("design model Graph violates %s" % r.invariant, [r.out[-6000:]], tag="model")
     obs_runs = [("obs1", (2, 2, [1, 2], [1], [0, 1], 1, 0)),
                 ("obs2", (2, 2, [1, 2], [1], [0, 1], 2, 5 if quick else 6))]
     if not quick:
         obs_runs.append(("obs1-large", (3, 3, [1, 2, 3], [1, 2], [0, 1], 1, 9)))
+    if not models:
+        obs_runs = []
+        ck.assumptions.append("design models skipped (VERIF_C14_MODELS=0)")
     for name, c in obs_runs:
         cfg = os.path.join(wd, name + ".cfg")
         _obs_cfg(cfg, *c)
@@ -109,15 +121,25 @@ def run(tier, seed):
         ck.add_model("Observer/" + name, r, "MaxN=%d MaxE=%d NObjs=%s EObjs=%s Idxs=%s MaxObs=%d MaxDepth=%d" % c)
         if r.invariant:
             ck.violation("design model Observer/%s violates %s" % (name, r.invariant), [r.out[-6000:]], tag="model")
+    # an action counts as untaken only if no Observer configuration took it
+    ck.untaken = _merge_untaken(ck.untaken)
     # 2. implementation traces
     exe = vc.build_driver("drv_graph", link_lib=True)
     known = _known_ids()
     avoid = ["--avoid", ",".join(known)] if known else []
-    runs = [("random", ["--mode", "random", "--n", 250 if quick else 4000, "--len", 40, "--maxnodes", 8] + avoid),
-            ("bfs", ["--mode", "bfs", "--depth", 3 if quick else 6, "--maxnodes", 3 if quick else 4,
-                     "--cap", 0 if quick else 60000] + avoid)]
+    runs = [("random", ["--mode", "random", "--n", 250 if quick else 3000, "--len", 40, "--maxnodes", 8] + avoid)]
+    cfgs = [d + e + i for d in "ud" for e in "ne" for i in "012"]
+    if quick:
+        runs.append(("bfs", ["--mode", "bfs", "--depth", 3, "--maxnodes", 3] + avoid))
+    else:
+        # one driver run per configuration keeps every trace file small enough for the validator
+        for c in cfgs:
+            runs.append(("bfs-" + c, ["--mode", "bfs", "--depth", 5, "--maxnodes", 4, "--cfg", c] + avoid))
+        for c in ("de1", "ue2"):
+            runs.append(("bfs6-" + c, ["--mode", "bfs", "--depth", 6, "--maxnodes", 4, "--cfg", c, "--cap", 25000] + avoid))
     for k in known:
         runs.append(("probe-" + k, ["--mode", "probe", "--name", k]))
+    bfs_sum = {"states": 0, "transitions": 0, "truncated": [], "per_cfg": []}
     first = True
     for name, args in runs:
         tr = os.path.join(wd, "trace-%s.ndjson" % name)
@@ -132,16 +154,21 @@ def run(tier, seed):
             if not rej and first:
                 _corruption_selftest(ck, tr, wd)
             first = False
-        if name == "bfs":
-            ck.extra["bfs"] = {k: s.get(k) for k in ("states", "transitions", "truncated", "per_cfg")}
+        if name.startswith("bfs"):
+            bfs_sum["states"] += s.get("states", 0)
+            bfs_sum["transitions"] += s.get("transitions", 0)
+            bfs_sum["per_cfg"] += [[name] + x for x in s.get("per_cfg", [])]
+            if s.get("truncated"):
+                bfs_sum["truncated"].append(name)
         os.remove(tr)
+    ck.extra["bfs"] = bfs_sum
     ck.exhaustive = True
     ck.rule = ("random histories of 40 calls over <= 8 nodes (directed/undirected, with/without edge objects, explicit or "
                "allocated indices, one optional observer copy, ~15% absent operands); breadth-first enumeration of every call "
                "instance from every reached abstract state (<= maxnodes nodes, depth bound) for 12 configurations; "
                "non-trivial = scenario with at least one state-changing call")
     ck.distinct = ck.traces
-    ck.assumptions = ["TLC; CommunityModules Json", "harness/drv_graph.cpp projection uses only public queries",
+    ck.assumptions += ["TLC; CommunityModules Json", "harness/drv_graph.cpp projection uses only public queries",
                       "self-loops only in directed mode; graph iterators are not built on absent nodes (undefined behaviour)",
                       "breadth-first states are identified up to order-preserving renaming of node ids"]
     return ck.finish()
